@@ -6,6 +6,10 @@ Theorems about the model `DSymVerif/Model/Delaney2d.lean` (namespace `D2`) and a
 Helper lemmas: `Proofs/Delaney2dFrac.lean` (fractions ↔ ℚ), `Proofs/Delaney2dGeom.lean`
 (curvature value, predicates), `Proofs/Delaney2dChi.lean` (orbifoldChi, census rule, bad).
 
+`Proofs/Dihedral.lean`, `Proofs/Delaney2dOrbits.lean`, `Proofs/Delaney2dReps.lean`,
+`Proofs/Delaney2dSum.lean` (dihedral orbit size, `orbit_reps_2d`, the chamber sum; these use
+the C02 theorems about `View.orbit`, `collect_orbits` and the table-based `r`, `v`).
+
 Not theorems (see `open_obligations` in conf/C08.json): Gauss–Bonnet for the model
 (`curvature = 2·orbifoldChi (orbifoldSymbol ds)`, i.e. correctness of the boundary tracing)
 and the invariance of the model's orbifold symbol — their conclusions are Spec clauses
@@ -13,22 +17,11 @@ evaluated on the implementation's answers for every explored symbol.
 -/
 import DSymVerif.Proofs.Delaney2dGeom
 import DSymVerif.Proofs.Delaney2dChi
+import DSymVerif.Proofs.Delaney2dSum
+import DSymVerif.Proofs.Delaney2dExamples
 
 namespace DSymVerif.C08
 open DSymVerif.DS DSymVerif.D2 DSymVerif.SpecC08
-
-/-! ### witnesses for the non-vacuity examples -/
-
-/-- one chamber, all three operations fix it, v01 = 3, v12 = 6: the symbol `*632` -/
-def exData : DSymData :=
-  match ofTables 1 2 (fun _ _ => 1) (fun i _ => if i = 0 then 3 else 6) with
-  | .ok y => y
-  | _ => default
-
-def ex632 : Sym := ⟨exData, .partialSym⟩
-/-- v01 = 3, v12 = 3: `*332`, spherical -/
-def ex332 : Sym :=
-  ⟨match ofTables 1 2 (fun _ _ => 1) (fun _ _ => 3) with | .ok y => y | _ => default, .simpleSym⟩
 
 /-! ### 1. the model's rationals are exact and in lowest terms -/
 
@@ -331,6 +324,82 @@ theorem good_spherical_chi_pos (o : Orb) (h : GoodSpherical o) : 0 < chiQ o ∧ 
   | star_532 => exact ⟨by norm_num [chiQ, dq], by decide⟩
 
 example : GoodSpherical ⟨[5, 3, 2], [], 0, 0⟩ := .i532
+
+/-! ### 6. the curvature as a sum over chambers, and its invariances -/
+
+/-- **dihedral orbit size**: on a valid D-set the list `orbit([i, j], d)` has `2r` entries when no
+    chamber in it is fixed by `op i` or `op j` (the `loopless` flag of `orbit_types_2d`) and `r`
+    entries otherwise, `r` being the least period of `d` under `op j ∘ op i`. -/
+theorem dihedral_orbit_size (y : DSymData) (h : ValidSet y.dset) (i j d r : Nat) (hi : i ≤ y.dim)
+    (hj : j ≤ y.dim) (hd : 1 ≤ d ∧ d ≤ y.size) (hr : IsLeastPeriod y.dset i j d r) :
+    (y.view.orbit [i, j] d).length =
+      if ((y.view.orbit [i, j] d).all fun e => y.op i e != some e && y.op j e != some e) = true
+      then 2 * r else r :=
+  orbit_length h hi hj hd hr
+
+example : ValidSet exData.dset ∧ IsLeastPeriod exData.dset 0 1 1 1 :=
+  ⟨exData_valid.set, by decide, by show exData.dset.opU 1 (exData.dset.opU 0 1) = 1; decide +kernel,
+   fun t a b => by omega⟩
+
+/-- `orbit_reps_2d(i, j)` on a valid D-set, for every pair of indices: chambers in range, no two in
+    the same (i,j)-orbit, one in the orbit of every chamber -/
+theorem orbitReps2d_one_per_orbit (y : DSymData) (h : ValidSet y.dset) (i j : Nat) (hi : i ≤ y.dim)
+    (hj : j ≤ y.dim) :
+    (∀ d ∈ y.view.orbitReps2d i j, 1 ≤ d ∧ d ≤ y.size) ∧
+    (y.view.orbitReps2d i j).Pairwise (fun a b => ¬ Orb2 y.dset i j a b) ∧
+    (∀ x, 1 ≤ x → x ≤ y.size → ∃ d ∈ y.view.orbitReps2d i j, Orb2 y.dset i j d x) := by
+  have := orbitReps2d_ok h hi hj
+  exact ⟨this.range, this.distinct, this.cover⟩
+
+/-- **`curvature_chamber_sum`.**  On a valid complete two-dimensional symbol, in either
+    representation, the model's `curvature` is defined and equals
+    Σ_chambers (1/m01(d) + 1/m12(d) − 1/2), where m_ij = r_ij · v_ij are the symbol's own answers. -/
+theorem curvature_chamber_sum (s : Sym) (g : Good2d s) :
+    ∃ k, curvature s = .ok k ∧
+      k.toRat = ∑ d ∈ Finset.Icc 1 s.size, (1 / mQ s.data 0 1 d + 1 / mQ s.data 1 2 d - 1 / 2) ∧
+      k = Frac.ofRat (chamberSum s.data) := by
+  obtain ⟨k, hk, hv⟩ := curvature_chamber_sum' s g.valid g.dim g.complete
+  refine ⟨k, hk, hv, ?_⟩
+  have := curvature_eq_chamberSum g
+  rw [hk] at this
+  exact Outcome.ok.inj this
+
+example : Good2d ex632 := ex632_good
+
+/-- **`curvature_renumber`**: a bijection of the chambers that preserves m01 and m12 preserves the
+    curvature (the same lowest-terms answer). -/
+theorem curvature_renumber (s s' : Sym) (g : Good2d s) (g' : Good2d s') (p : Nat → Nat)
+    (hmaps : ∀ d, 1 ≤ d → d ≤ s.data.size → 1 ≤ p d ∧ p d ≤ s'.data.size)
+    (hinj : ∀ d e, 1 ≤ d → d ≤ s.data.size → 1 ≤ e → e ≤ s.data.size → p d = p e → d = e)
+    (hsurj : ∀ e, 1 ≤ e → e ≤ s'.data.size → ∃ d, 1 ≤ d ∧ d ≤ s.data.size ∧ p d = e)
+    (hm01 : ∀ d, 1 ≤ d → d ≤ s.data.size → mQ s'.data 0 1 (p d) = mQ s.data 0 1 d)
+    (hm12 : ∀ d, 1 ≤ d → d ≤ s.data.size → mQ s'.data 1 2 (p d) = mQ s.data 1 2 d) :
+    curvature s' = curvature s :=
+  curvature_congr g g' (chamberSum_renumber p hmaps hinj hsurj hm01 hm12)
+
+example : curvature ex632 = curvature ex632 :=
+  curvature_renumber ex632 ex632 ex632_good ex632_good id (fun _ a b => ⟨a, b⟩)
+    (fun _ _ _ _ _ _ h => h) (fun e a b => ⟨e, a, b, rfl⟩) (fun _ _ _ => rfl) (fun _ _ _ => rfl)
+
+/-- **`curvature_dual`**: exchanging m01 and m12 (what dualisation does) preserves the curvature. -/
+theorem curvature_dual (s s' : Sym) (g : Good2d s) (g' : Good2d s') (hsize : s'.data.size = s.data.size)
+    (hm01 : ∀ d, 1 ≤ d → d ≤ s.data.size → mQ s'.data 0 1 d = mQ s.data 1 2 d)
+    (hm12 : ∀ d, 1 ≤ d → d ≤ s.data.size → mQ s'.data 1 2 d = mQ s.data 0 1 d) :
+    curvature s' = curvature s :=
+  curvature_congr g g' (chamberSum_dual hsize hm01 hm12)
+
+/-- **`curvature_cover`**: under a map of chambers whose fibres all have `k` elements and which
+    preserves m01 and m12 (a `k`-sheeted covering) the curvature is multiplied by `k`. -/
+theorem curvature_cover (s s' : Sym) (g : Good2d s) (g' : Good2d s') (k : Nat) (π : Nat → Nat)
+    (hmaps : ∀ e, 1 ≤ e → e ≤ s'.data.size → 1 ≤ π e ∧ π e ≤ s.data.size)
+    (hfib : ∀ d, 1 ≤ d → d ≤ s.data.size →
+      ((Finset.Icc 1 s'.data.size).filter fun e => π e = d).card = k)
+    (hm01 : ∀ e, 1 ≤ e → e ≤ s'.data.size → mQ s'.data 0 1 e = mQ s.data 0 1 (π e))
+    (hm12 : ∀ e, 1 ≤ e → e ≤ s'.data.size → mQ s'.data 1 2 e = mQ s.data 1 2 (π e)) :
+    ∃ K K', curvature s = .ok K ∧ curvature s' = .ok K' ∧ K'.toRat = (k : ℚ) * K.toRat := by
+  refine ⟨_, _, curvature_eq_chamberSum g, curvature_eq_chamberSum g', ?_⟩
+  rw [Frac.toRat_ofRat, Frac.toRat_ofRat]
+  exact chamberSum_cover k π hmaps hfib hm01 hm12
 
 /-! ### open (not theorems): the statements, for the record -/
 
